@@ -16,11 +16,14 @@ fn norm(a: &Aux) -> Aux {
   }
 }
 fn aux_for(i: usize) -> Aux {
-  match i % 4 {
+  match i % 6 {
     0 => None,
     1 => Some(vec![]),
     2 => Some(vec![i as u8]),
-    _ => Some(prbytes(i as u64, 200)),
+    3 => Some(prbytes(i as u64, 200)),
+    // equal length, identical trailer, different head (and different tail, same head)
+    4 => Some([&[b'A' + (i % 23) as u8, b'Z' - (i % 7) as u8][..], b"|desktop|release-1.58.0"].concat()),
+    _ => Some([b"release-1.58.0|desktop|", &[b'a' + (i % 23) as u8, b'z' - (i % 7) as u8][..]].concat()),
   }
 }
 
@@ -35,7 +38,8 @@ fn make_reports(cx: &mut CaseCx, t: u32, sizes: &[usize], dup: bool) -> Option<V
   let mut v = vec![];
   let mut k = 0usize;
   for (g, &sz) in sizes.iter().enumerate() {
-    let meas = format!("measurement-{}", g).into_bytes();
+    // distinct measurements that share a 48-byte prefix (URLs under one origin) and, for odd g, a suffix
+    let meas = format!("https://origin.example/a/very/long/common/prefix/{}{}", g, if g % 2 == 1 { "/index.html" } else { "" }).into_bytes();
     let rnd = local_randomness(&meas, b"t", t);
     for _ in 0..sz {
       getrandom::verif::set_group(k as u32 + 1);
@@ -414,7 +418,7 @@ pub fn spec() -> PropSpec {
     checks: vec![
       Check {
         name: "group-size-vectors",
-        rule: "t in 1..3; ALL vectors of <= 3 (thorough: 4) group sizes in 1..2t; aux per client round-robin over {absent, empty, 1 byte, 200 bytes}; for inputs of <= 6 (thorough 7) reports ALL permutations of the input, above that a structured family (identity, reversal, rotations, strides, every report moved to the front); each order under worker pools of 1,2,3,4,8,16 threads; also with the first report of every group delivered twice; oracle: reference map measurement -> multiset of aux for groups with >= t distinct reports, outputs pairwise distinct, nothing else revealed; decomposition (group-by-group outputs) equals the whole",
+        rule: "t in 1..3; ALL vectors of <= 3 (thorough: 4) group sizes in 1..2t; measurements share a 48-byte prefix; aux per client round-robin over {absent, empty, 1 byte, 200 bytes, 25 bytes with a common trailer, 25 bytes with a common head}; for inputs of <= 6 (thorough 7) reports ALL permutations of the input, above that a structured family (identity, reversal, rotations, strides, every report moved to the front); each order under worker pools of 1,2,3,4,8,16 threads; also with the first report of every group delivered twice; oracle: reference map measurement -> multiset of aux for groups with >= t distinct reports, outputs pairwise distinct, nothing else revealed; decomposition (group-by-group outputs) equals the whole",
         gen: |tier| {
           let mut v = vec![];
           for t in 1..=3usize {
